@@ -1,6 +1,7 @@
 import ChythonModel.Proofs.C10WF
 import ChythonModel.Proofs.C10Layout3
 import ChythonModel.Proofs.C10V0
+import ChythonModel.Proofs.C10Stable
 import ChythonModel.Proofs.C10Half
 import ChythonModel.Proofs.C10HalfTrunc
 /-!
@@ -92,6 +93,20 @@ theorem decode_encode (m : PMol) (h : WF m) (rest : List Nat) :
     packer's bytes are exactly the documented bytes. -/
 theorem encode_is_layout (m : PMol) (h : WF m) : ∃ bytes, encode m = .ok bytes ∧ layoutBytes m = some bytes :=
   encode_is_layout_aux m h
+
+/-- **stable published layout**: any byte string that is the documented version-2 layout of a molecule within the limits
+    (for instance a pack published earlier) decodes to exactly that molecule, whatever follows it. -/
+theorem decode_layout (m : PMol) (h : WF m) (rest : List Nat) :
+    ∃ bytes, layoutBytes m = some bytes ∧
+      decode (bytes ++ rest) = .ok ⟨m.atoms.map eraseSt, ctListOf m.terminals (firstSeen [] m.atoms), bytes.length⟩ :=
+  decode_layout_aux m h rest
+
+/-- the same for the earlier format version 0 (version byte 0, two bytes per five bond orders): it keeps decoding to the
+    same structure. -/
+theorem decode_layout_v0 (m : PMol) (h : WF m) (rest : List Nat) :
+    ∃ bytes, layoutBytesV0 m = some bytes ∧
+      decode (bytes ++ rest) = .ok ⟨m.atoms.map eraseSt, ctListOf m.terminals (firstSeen [] m.atoms), bytes.length⟩ :=
+  decode_layout_v0_aux m h rest
 
 /-- the 3-bit order stream alone is the documented bit string for every bond count (zero-padded to a full byte) -/
 theorem order_stream_is_layout (codes : List Nat) (b : Nat) (h : ∀ c ∈ codes, c < 8) :
